@@ -56,6 +56,10 @@ def run(tier, seed):
     short = [b"20 \r\nab", b"51\r\n", b"2\r\n", b"20 a\r", b"\r\n\r\n", b"20 t\r\nx", b"99 x\r\n", b"20 \xff\r\n"]
     for n in (1026, 1027, 1028, 1029, 1030):      # header-line boundary (2+1+1024 = 1027), with / without CRLF
         short += [b"20 " + b"m" * (n - 3) + b"\r\nbody", b"20 " + b"m" * (n - 3), b"20 " + b"m" * (n - 3) + b"\r"]
+    # bodies around and beyond the cap, delivered with the header in every way (the whole stream in one read included)
+    for nbody in (cd.CAP - 1, cd.CAP, cd.CAP + 1, cd.CAP + 40, 3 * cd.CAP):
+        short += [b"20 text/plain\r\n" + b"b" * nbody, b"20 \r\n" + b"b" * nbody, b"21 application/octet-stream\r\n" + bytes(range(256))[:nbody % 256] + b"c" * (nbody - nbody % 256),
+                  b"51 gone\r\n" + b"b" * nbody]
     streams = short + [gen_stream(rng) for _ in range(120 if tier == "quick" else 1500)]
     cases = []
     for s in streams:
